@@ -725,17 +725,17 @@ Example C19_partial_nontrivial :
   mentions_format ex_rpn = false /\ clean_heap wit_heap = true /\ clean_env wit_locals = true /\
   log (eval ex_rpn wit_heap wit_locals) = [Resolve "o"; ReadAttr ByMember (VObj 0) "pub"] /\
   r_out (eval ex_rpn wit_heap wit_locals) = OutItem (IVal (VInt 2)).
-Proof. vm_compute. repeat split; reflexivity. Qed.
+Proof. repeat split; vm_compute; reflexivity. Qed.
 
 (* the repaired guard turns the D12 witness into a ParseError with no attribute read on the object *)
 Example C19_repair_blocks_witness :
   r_out (eval_g repaired_guard wit_format wit_heap wit_locals) = OutExc "ParseError" /\
   log (eval_g repaired_guard wit_format wit_heap wit_locals) = [] /\
   r_out (eval_g repaired_guard ex_rpn wit_heap wit_locals) = OutItem (IVal (VInt 2)).
-Proof. vm_compute. repeat split; reflexivity. Qed.
+Proof. repeat split; vm_compute; reflexivity. Qed.
 
 (* private members are refused by the translated guard, whatever the object *)
 Example C19_private_member_refused :
   r_out (eval [TId "o"; TId "_x"; TOp "MEMBER_ACCESS"] wit_heap wit_locals) = OutExc "ParseError" /\
   log (eval [TId "o"; TId "_x"; TOp "MEMBER_ACCESS"] wit_heap wit_locals) = [Resolve "o"].
-Proof. vm_compute. split; reflexivity. Qed.
+Proof. split; vm_compute; reflexivity. Qed.
